@@ -68,10 +68,27 @@ T2 = [
  ("R2_C04_2", "C04", 2, [("demo2.rs", "server/tests/c04_demo2.rs")], "cargo test --offline -p server --test c04_demo2", ["C04", "C15", "C16"]),
 ]
 
+T3 = [
+ ("R3_C15_1", "C15", 1, [("demo1.rs", "solution/tests/demo1.rs")], "cargo test -p solution --offline --test demo1", ["C15", "C09"]),
+ ("R3_C15_2", "C15", 2, [("demo2.rs", "solution/tests/demo2.rs")], "cargo test -p solution --offline --test demo2", ["C15", "C10"]),
+ ("R3_C17_3", "C15", 3, [("demo3.rs", "model/tests/demo3.rs")], "cargo test -p model --offline --test demo3", ["C17", "C07"]),
+ ("R3_C17_4", "C15", 4, [("demo4.rs", "model/tests/demo4.rs")], "cargo test -p model --offline --test demo4", ["C17", "C01"]),
+ ("R3_C09_1", "C09", 1, [("demo1.rs", "solution/tests/demo1.rs")], "cargo test -p solution --offline --test demo1", ["C09", "C12"]),
+ ("R3_C09_2", "C09", 2, [("demo2.rs", "solution/tests/demo2.rs")], "cargo test -p solution --offline --test demo2", ["C09", "C11"]),
+ ("R3_C12_3", "C09", 3, [("demo3.rs", "solution/tests/demo3.rs")], "cargo test -p solution --offline --test demo3", ["C12", "C13", "C10"]),
+ ("R3_C12_4", "C09", 4, [("demo4.rs", "solution/tests/demo4.rs")], "cargo test -p solution --offline --test demo4", ["C12", "C06", "C11"]),
+ ("R3_C06_1", "C06", 1, [], "cargo run --offline --release --bin single_run -- /tmp/seed/C06-out/demo1.json", ["C06", "C17"]),
+ ("R3_C06_2", "C06", 2, [], "cargo run --offline --bin single_run -- /tmp/seed/C06-out/demo2.json", ["C06", "C11"]),
+ ("R3_C07_3", "C06", 3, [], "bash -c 'cargo run --offline --release --bin single_run -- /tmp/seed/C06-out/demo3.json >/dev/null 2>&1; python3 /tmp/seed/C06-out/check_c07.py /tmp/seed/C06-out/demo3.json output/output_demo3.json'", ["C07", "C08"]),
+ ("R3_C02_1", "C02", 1, [("demo1.rs", "server/tests/c02_demo1.rs")], "cargo test -p server --offline --test c02_demo1", ["C02", "C10"]),
+ ("R3_C03_2", "C02", 2, [("demo2.rs", "server/tests/c03_demo2.rs")], "cargo test -p server --offline --test c03_demo2", ["C03"]),
+ ("R3_C03_3", "C02", 3, [("demo3.rs", "server/tests/c03_demo3.rs")], "cargo test -p server --offline --test c03_demo3", ["C03", "C02", "C17"]),
+]
+
 def confirm2(only):
     path = "/verif/notes/seeded2_confirm.json"
     res = json.load(open(path)) if os.path.exists(path) else {}
-    for (key, wtid, k, demos, cmd, _checks) in T2:
+    for (key, wtid, k, demos, cmd, _checks) in T2 + T3:
         if only and key not in only:
             continue
         wt = "%s/%s" % (SRC, wtid); out = "%s/%s-out" % (SRC, wtid)
@@ -103,7 +120,7 @@ def detect2(only):
     res = json.load(open(path)) if os.path.exists(path) else {}
     if sh("git -C /repo diff --quiet")[0] != 0:
         print("/repo dirty"); sys.exit(2)
-    for (key, wtid, k, demos, cmd, checks) in T2:
+    for (key, wtid, k, demos, cmd, checks) in T2 + T3:
         if only and key not in only:
             continue
         diff = "%s/%s-out/change%d.diff" % (SRC, wtid, k)
